@@ -66,6 +66,8 @@ def cell_payload(cell: Cell) -> Any:
 def num(value: Any) -> Optional[Fraction]:
     if value is None or value == "":
         return None
+    if isinstance(value, Fraction):
+        return value
     if isinstance(value, Decimal):
         return Fraction(value)
     if isinstance(value, (int, float)):
